@@ -48,6 +48,8 @@ async fn async_no_alloc(_d: &impl std::any::Any, a: u64) -> u64 { Yield(false).a
 async fn async_alloc(_d: &impl std::any::Any, n: usize) -> String { Yield(false).await; "x".repeat(n) }
 #[entrait(AsyncLt)]
 async fn async_lt<'a>(_d: &'a impl std::any::Any, s: &'a str) -> &'a str { Yield(false).await; &s[1..] }
+#[entrait(AsyncTwoLt)]
+async fn async_two_lt<'a, 'b>(_d: &impl std::any::Any, s: &'a str, t: &'b str) -> (&'a str, &'b str) { Yield(false).await; (&s[1..], &t[..1]) }
 // no dependency, owned arguments only (a future that borrows nothing)
 #[entrait(NoDepsAsync, no_deps)]
 async fn no_deps_async(a: u64, b: u64) -> u64 { Yield(false).await; a * b }
@@ -90,6 +92,7 @@ fn main() {
     same_allocs!("async_no_alloc", block_on(async_no_alloc(&app, 1)), block_on(app.async_no_alloc(1)));
     same_allocs!("async_alloc", block_on(async_alloc(&app, 9)), block_on(app.async_alloc(9)));
     same_allocs!("async_lt", block_on(async_lt(&app, "abc")), block_on(app.async_lt("abc")));
+    same_allocs!("async_two_lt", block_on(async_two_lt(&app, "abc", "xyz")), block_on(app.async_two_lt("abc", "xyz")));
     same_allocs!("no_deps_async", block_on(no_deps_async(6, 7)), block_on(app.no_deps_async(6, 7)));
     same_allocs!("by_value_async", block_on(by_value_async(Impl::new(App), 1)), block_on(Impl::new(App).by_value_async(1)));
     same_allocs!("in_mod", m::in_mod(&app, 1), app.in_mod(1));
@@ -104,6 +107,6 @@ fn main() {
     let x: u64 = block_on(require_send(app.inv_async(4)));
     let n: u64 = block_on(app.not_send(6));
     if (v, s.as_str(), u, w, x, n) != (5, "xx", (), 10, 8, 6) { println!("C12-PROBE-FAIL outputs {v} {s} {w} {x} {n}"); bad += 1; }
-    println!("C12-C14-PROBE cases=17 failed={bad}");
+    println!("C12-C14-PROBE cases=18 failed={bad}");
     std::process::exit(if bad == 0 { 0 } else { 1 });
 }
